@@ -606,6 +606,10 @@ def hoist_cases(repo):
         ("-a(R)", lambda sh, a, b, c, r: sh.un("neg", sh.bin("call", a, r)), sym.neg(A), 0o60, "a"),
         ("@a+b(R)", lambda sh, a, b, c, r: sh.un("deferred", sh.bin("add", a, sh.bin("call", b, r))), sym.add(A, B), 0o70, "b"),
         ("a(R)", lambda sh, a, b, c, r: sh.bin("call", a, r), A, 0o60, "a"),
+        # stacked prefix operators: each level is rebuilt around the level below it
+        ("@-a(R)", lambda sh, a, b, c, r: sh.un("deferred", sh.un("neg", sh.bin("call", a, r))), sym.neg(A), 0o70, "a"),
+        ("--a(R)", lambda sh, a, b, c, r: sh.un("neg", sh.un("neg", sh.bin("call", a, r))), sym.neg(sym.neg(A)), 0o60, "a"),
+        ("-a+b(R)", lambda sh, a, b, c, r: sh.un("neg", sh.bin("add", a, sh.bin("call", b, r))), sym.neg(sym.add(A, B)), 0o60, "b"),
     ]
     out = []
     # every case with the register written 'r2' and written '%2' (the same register: C10)
@@ -772,6 +776,8 @@ def run(ck):
     from . import c03
     from . import c02 as _c02
     ck.run_rule("C02.R7", "absolute operands in the second, third ... linked file: each file is assembled at base + lengths of ALL files before it", 3, _c02.rule_R7)
+    from ..rules import treeimm as _treeimm
+    ck.run_rule("G4.re", "an operand expression compiled again at another address (the next copy of a '.repeat' body) is evaluated again: 'br .+4' in every copy", 15, _treeimm.rule_reresolve)
     ck.run_rule("C03.R7", "operand values built from not-yet-known symbols: LinearPolynomial algebra (sums, differences, scaling, flattening)", 18, c03.rule_R7)
     from ..rules import thunks
     ck.run_rule("G1", "operand thunks read their own state: captured by value, never updated in place", 20, thunks.rule_G1)
